@@ -207,6 +207,11 @@ def call_builtin(ip, fn, args, kwargs, lineno):
         return list(reversed(xs))
     if fn is bytes:
         return args[0]
+    if fn is set:
+        xs = [] if not args else ip.concrete_items(args[0])
+        if xs is None or any(is_sym(x) for x in xs):
+            raise Unsupported("set() of symbolic content")
+        return set(xs)
     raise Unsupported("builtin %s" % getattr(fn, "__name__", fn))
 
 
